@@ -1,6 +1,6 @@
 /-
 Bridge lemmas for translator T-f: `PartialJoin.columns_required`, `PartialJoin.commute`,
-`Materialization.simplify`, `Transfer.simplify`, `Chain._begin_apply`, `Join._begin_apply`, `Join._finish_apply` and `PartialJoin._begin_apply`, as regenerated from the
+`Materialization.simplify`, `Transfer.simplify` and `Chain._begin_apply`, as regenerated from the
 current source (Gen/RelOps.lean), are the model's definitions.
 -/
 import DafRel.Gen.RelOps
@@ -16,68 +16,6 @@ theorem PartialJoin_commute_eq (p : PJoin) (cur : UOp) (tcols ccols : Cols) :
   unfold Gen.PartialJoin_commute PJoin.commute
   rw [PartialJoin_columns_required_eq]
   cases cur <;> simp <;> (repeat' split) <;> simp_all
-
-theorem seteq_self (c : Cols) : c.seteq c = true := by
-  simp [Cols.seteq, Cols.subset]
-
-/-- `PartialJoin._begin_apply`, as regenerated (self-recursive on the replacement with resolved common columns, hence
-the recursion budget: two levels suffice), is the model's `PJoin.beginApply`. -/
-theorem PartialJoin_begin_apply_eq (fuel : Nat) (p : PJoin) (t : Rel) (pref : Option Engine) :
-    Gen.PartialJoin_begin_apply (fuel+2) p t pref = p.beginApply t pref := by
-  unfold PJoin.beginApply
-  rw [Gen.PartialJoin_begin_apply]
-  by_cases hres : p.join.resolved = true
-  · simp [hres, PartialJoin_columns_required_eq]
-  · have hres' : p.join.resolved = false := by simpa using hres
-    simp only [hres', Bool.not_false, if_true]
-    cases hc : p.join.appliedCommonColumns p.fixed.columns t.columns with
-    | error e => rfl
-    | ok c =>
-      simp only []
-      rw [Gen.PartialJoin_begin_apply]
-      have hr : JoinOp.resolved { p.join with minCols := c, maxCols := some c } = true := by
-        simp [JoinOp.resolved, seteq_self]
-      simp [hr, PartialJoin_columns_required_eq]
-
-/-- `Join.applied_common_columns`, as regenerated, is the model's `JoinOp.appliedCommonColumns`. -/
-theorem Join_applied_common_columns_eq (j : JoinOp) (lcols rcols : Cols) :
-    Gen.Join_applied_common_columns j lcols rcols = j.appliedCommonColumns lcols rcols := by
-  unfold Gen.Join_applied_common_columns JoinOp.appliedCommonColumns
-  by_cases hres : (!j.resolved) = true
-  · simp only [hres, if_true]
-    cases hm : j.maxCols <;> simp only [] <;> (split <;> simp_all)
-  · simp [hres]
-
-/-- `Join._begin_apply(lhs, rhs)`, as regenerated, is the model's `joinBeginApply`. -/
-theorem Join_begin_apply_eq (j : JoinOp) (l r : Rel) : Gen.Join_begin_apply j l r = joinBeginApply j l r := by
-  unfold Gen.Join_begin_apply joinBeginApply
-  simp only [bind, Except.bind, pure, Except.pure, throw, throwThe, MonadExceptOf.throw]
-  by_cases h0 : (!(j.pred.columnsRequired.subset (l.columns.union r.columns))) = true
-  · simp [h0]
-  · simp only [h0, Bool.false_eq_true, if_false]
-    by_cases hres : (!j.resolved) = true
-    · simp only [hres, if_true]
-      cases hc : j.appliedCommonColumns l.columns r.columns with
-      | error e => rfl
-      | ok c => rfl
-    · simp only [hres, Bool.false_eq_true, if_false]
-      cases hc : j.commonColumns with
-      | error e => rfl
-      | ok c =>
-        -- tolerant of the order in which the two operands are checked
-        first
-          | rfl
-          | (by_cases h1 : c.subset l.columns = true <;> by_cases h2 : c.subset r.columns = true <;> simp [h1, h2])
-
-/-- `Join._finish_apply(lhs, rhs)`, as regenerated, is the model's `binaryFinishApply (.join j)`. -/
-theorem Join_finish_apply_eq (j : JoinOp) (l r : Rel) :
-    Gen.Join_finish_apply j l r = binaryFinishApply (.join j) l r := by
-  unfold Gen.Join_finish_apply binaryFinishApply
-  by_cases ht : (j.pred.asTrivial == some true) = true
-  · by_cases h1 : l.isJoinIdentity = true
-    · simp [ht, h1]
-    · by_cases h2 : r.isJoinIdentity = true <;> simp [ht, h1, h2]
-  · simp [ht]
 
 theorem Materialization_simplify_eq : (t : Rel) → Gen.Materialization_simplify t = matSimplify t
   | .leaf .. => by simp [Gen.Materialization_simplify, matSimplify]
